@@ -181,35 +181,45 @@ Definition tok_of_atok (a : atok) : tok :=
 (* [check] = checkEntityDecl.  An entity's replacement text is re-read in
    attribute context: markup in it ('<') is an invalid token, a reference to
    an external entity is XML_ERROR_ATTRIBUTE_EXTERNAL_ENTITY_REF -- the
-   external-entity handler is never involved. *)
+   external-entity handler is never involved.
+
+   Shape of all three readers below: a non-recursive STEP for one token /
+   declaration, taking the reader for nested replacement text as [rec]; a
+   structural fold over the list; fuel only where an entity is opened. *)
+Definition aval_step (rec : list name -> list tok -> outcome str)
+  (d : dtd) (check : bool) (open : list name) (t : tok) : outcome str :=
+  match t with
+  | TText s => Ok s
+  | TRef n =>
+    match predefined n with
+    | Some c => Ok [c]
+    | None =>
+      match lookup n (gents d) with
+      | None => if check then Err else Ok []        (* silently dropped *)
+      | Some e =>
+        if mem n open then Err                      (* recursive entity reference *)
+        else match e with
+             | GNdata => Err                        (* binary entity *)
+             | GExt _ => Err                        (* external entity in attribute *)
+             | GInt v => rec (n :: open) v
+             end
+      end
+    end
+  | TOpen _ _ => Err
+  | TClose _ => Err
+  end.
+
+Fixpoint run_aval (step : tok -> outcome str) (l : list tok) : outcome str :=
+  match l with
+  | [] => Ok []
+  | t :: r => obind (step t) (fun s => obind (run_aval step r) (fun u => Ok (s ++ u)))
+  end.
+
 Fixpoint attval (fuel : nat) (d : dtd) (check : bool) (open : list name) (l : list tok)
   {struct fuel} : outcome str :=
   match fuel with
   | O => Fuel
-  | S f =>
-    (fix go (l : list tok) : outcome str :=
-       match l with
-       | [] => Ok []
-       | TText s :: r => obind (go r) (fun t => Ok (s ++ t))
-       | TRef n :: r =>
-         match predefined n with
-         | Some c => obind (go r) (fun t => Ok (c :: t))
-         | None =>
-           match lookup n (gents d) with
-           | None => if check then Err else go r        (* silently dropped *)
-           | Some e =>
-             if mem n open then Err                      (* recursive entity reference *)
-             else match e with
-                  | GNdata => Err                        (* binary entity *)
-                  | GExt _ => Err                        (* external entity in attribute *)
-                  | GInt v => obind (attval f d check (n :: open) v)
-                                    (fun s => obind (go r) (fun t => Ok (s ++ t)))
-                  end
-           end
-         end
-       | TOpen _ _ :: _ => Err
-       | TClose _ :: _ => Err
-       end) l
+  | S f => run_aval (aval_step (attval f d check) d check open) l
   end.
 
 (* checkEntityDecl when called from content *)
@@ -231,52 +241,59 @@ Variable ext : sysid -> list sysid * ext_result.      (* = ext_ref cfg resolve *
 Definition call_ext (s : sysid) : logged ext_result :=
   let (l, r) := ext s in (l, Ok r).
 
+Definition decl_step (rec : dtd -> bool -> list name -> list decl -> logged dtd)
+  (fuel_att : nat) (in_ext : bool) (open : list name) (d : dtd) (x : decl) : logged dtd :=
+  match x with
+  | DGenInt n v => ret (declare_gen d n (GInt v))
+  | DGenExt n s => ret (declare_gen d n (GExt s))
+  | DGenNdata n s => ret (declare_gen d n GNdata)
+  | DParInt n v => ret (declare_par d n (PInt v))
+  | DParExt n s => ret (declare_par d n (PExt s))
+  | DAttDef el att v =>
+    if keep d then
+      match attval fuel_att d (check_prolog d in_ext) [] (map tok_of_atok v) with
+      | Ok s => ret (if has_attdef el att (attdefs d) then d
+                     else set_attdefs d (attdefs d ++ [(el, (att, s))]))
+      | Err => fail
+      | Fuel => nofuel
+      end
+    else ret d
+  | DParRef n =>
+    (* XML_ROLE_PARAM_ENTITY_REF *)
+    let d1 := set_has_pe d true in
+    if standalone d then
+      (* paramEntityParsing was switched to NEVER by the XML declaration *)
+      ret (set_keep d1 true)
+    else
+      match lookup n (pents d1) with
+      | None => ret (set_keep d1 false)               (* skipped entity *)
+      | Some p =>
+        if mem n open then fail                        (* recursive entity reference *)
+        else match p with
+             | PInt v => rec d1 in_ext (n :: open) v
+             | PExt s =>
+               bind (call_ext s) (fun x =>
+                 match x with
+                 | Skipped => ret (set_keep d1 false)  (* paramEntityRead = false *)
+                 | Failed => fail
+                 | Got (RDtd v) => rec d1 true (n :: open) v
+                 | Got (RText _) => fail
+                 end)
+             end
+      end
+  end.
+
+Fixpoint run_decls (step : dtd -> decl -> logged dtd) (d : dtd) (ds : list decl) : logged dtd :=
+  match ds with
+  | [] => ret d
+  | x :: r => bind (step d x) (fun d' => run_decls step d' r)
+  end.
+
 Fixpoint prolog (fuel : nat) (d : dtd) (in_ext : bool) (open : list name) (ds : list decl)
   {struct fuel} : logged dtd :=
   match fuel with
   | O => nofuel
-  | S f =>
-    (fix go (d : dtd) (ds : list decl) : logged dtd :=
-       match ds with
-       | [] => ret d
-       | DGenInt n v :: r => go (declare_gen d n (GInt v)) r
-       | DGenExt n s :: r => go (declare_gen d n (GExt s)) r
-       | DGenNdata n s :: r => go (declare_gen d n GNdata) r
-       | DParInt n v :: r => go (declare_par d n (PInt v)) r
-       | DParExt n s :: r => go (declare_par d n (PExt s)) r
-       | DAttDef el att v :: r =>
-         if keep d then
-           match attval (S f) d (check_prolog d in_ext) [] (map tok_of_atok v) with
-           | Ok s => go (if has_attdef el att (attdefs d) then d
-                         else set_attdefs d (attdefs d ++ [(el, (att, s))])) r
-           | Err => fail
-           | Fuel => nofuel
-           end
-         else go d r
-       | DParRef n :: r =>
-         (* XML_ROLE_PARAM_ENTITY_REF *)
-         let d1 := set_has_pe d true in
-         if standalone d then
-           (* paramEntityParsing was switched to NEVER by the XML declaration *)
-           go (set_keep d1 true) r
-         else
-           match lookup n (pents d1) with
-           | None => go (set_keep d1 false) r          (* skipped entity *)
-           | Some p =>
-             if mem n open then fail                    (* recursive entity reference *)
-             else match p with
-                  | PInt v => bind (prolog f d1 in_ext (n :: open) v) (fun d2 => go d2 r)
-                  | PExt s =>
-                    bind (call_ext s) (fun x =>
-                      match x with
-                      | Skipped => go (set_keep d1 false) r     (* paramEntityRead = false *)
-                      | Failed => fail
-                      | Got (RDtd v) => bind (prolog f d1 true (n :: open) v) (fun d2 => go d2 r)
-                      | Got (RText _) => fail
-                      end)
-                  end
-           end
-       end) d ds
+  | S f => run_decls (decl_step (prolog f) (S f) in_ext open) d ds
   end.
 
 (* ------------------------------------------------------------------ *)
@@ -321,63 +338,73 @@ Definition start_tag (fuel : nat) (d : dtd) (nm : name) (attrs : list (name * li
    entity being read -- an end tag may not close an element opened outside
    the entity, and the entity must end at the level it started
    (XML_ERROR_ASYNC_ENTITY).  Result: events and the tag stack afterwards. *)
+Definition tok_step
+  (rec : list name -> nat -> list name -> list tok -> logged (list event * list name))
+  (fuel_att : nat) (d : dtd) (open : list name) (lvl : nat) (tags : list name) (t : tok)
+  : logged (list event * list name) :=
+  match t with
+  | TText s => ret ([EChars s], tags)
+  | TOpen nm attrs =>
+    match start_tag fuel_att d nm attrs with
+    | Ok e => ret ([e], nm :: tags)
+    | Err => fail
+    | Fuel => nofuel
+    end
+  | TClose nm =>
+    match tags with
+    | [] => fail
+    | t :: tags' =>
+      if Nat.leb (length tags) lvl then fail                (* asynchronous entity *)
+      else if N.eqb t nm then ret ([EEnd nm], tags')
+           else fail                                        (* mismatched tag *)
+    end
+  | TRef n =>
+    match predefined n with
+    | Some c => ret ([EChars [c]], tags)
+    | None =>
+      match lookup n (gents d) with
+      | None =>
+        if check_content d then fail                        (* undefined entity *)
+        else ret ([], tags)                                 (* skippedEntity: ignored by suds *)
+      | Some e =>
+        if mem n open then fail                             (* recursive entity reference *)
+        else
+          let inner (v : list tok) :=
+            bind (rec (n :: open) (length tags) tags v) (fun x =>
+              if Nat.eqb (length (snd x)) (length tags)
+              then ret x
+              else fail)                                    (* asynchronous entity *)
+          in
+          match e with
+          | GNdata => fail                                  (* binary entity *)
+          | GInt v => inner v
+          | GExt s =>
+            bind (call_ext s) (fun x =>
+              match x with
+              | Skipped => ret ([], tags)                   (* nothing included *)
+              | Failed => fail
+              | Got (RText v) => inner v
+              | Got (RDtd _) => fail
+              end)
+          end
+      end
+    end
+  end.
+
+Fixpoint run_toks (step : list name -> tok -> logged (list event * list name))
+  (tags : list name) (l : list tok) : logged (list event * list name) :=
+  match l with
+  | [] => ret ([], tags)
+  | t :: r =>
+    bind (step tags t) (fun x =>
+    bind (run_toks step (snd x) r) (fun y => ret (fst x ++ fst y, snd y)))
+  end.
+
 Fixpoint content (fuel : nat) (d : dtd) (open : list name) (lvl : nat) (tags : list name)
   (l : list tok) {struct fuel} : logged (list event * list name) :=
   match fuel with
   | O => nofuel
-  | S f =>
-    (fix go (tags : list name) (l : list tok) : logged (list event * list name) :=
-       match l with
-       | [] => ret ([], tags)
-       | TText s :: r =>
-         bind (go tags r) (fun x => ret (EChars s :: fst x, snd x))
-       | TOpen nm attrs :: r =>
-         match start_tag (S f) d nm attrs with
-         | Ok e => bind (go (nm :: tags) r) (fun x => ret (e :: fst x, snd x))
-         | Err => fail
-         | Fuel => nofuel
-         end
-       | TClose nm :: r =>
-         match tags with
-         | [] => fail
-         | t :: tags' =>
-           if Nat.leb (length tags) lvl then fail                (* asynchronous entity *)
-           else if N.eqb t nm
-                then bind (go tags' r) (fun x => ret (EEnd nm :: fst x, snd x))
-                else fail                                        (* mismatched tag *)
-         end
-       | TRef n :: r =>
-         match predefined n with
-         | Some c => bind (go tags r) (fun x => ret (EChars [c] :: fst x, snd x))
-         | None =>
-           match lookup n (gents d) with
-           | None =>
-             if check_content d then fail                        (* undefined entity *)
-             else go tags r                                      (* skippedEntity: ignored by suds *)
-           | Some e =>
-             if mem n open then fail                             (* recursive entity reference *)
-             else
-               let inner (v : list tok) :=
-                 bind (content f d (n :: open) (length tags) tags v) (fun x =>
-                   if Nat.eqb (length (snd x)) (length tags)
-                   then bind (go tags r) (fun y => ret (fst x ++ fst y, snd y))
-                   else fail)                                    (* asynchronous entity *)
-               in
-               match e with
-               | GNdata => fail                                  (* binary entity *)
-               | GInt v => inner v
-               | GExt s =>
-                 bind (call_ext s) (fun x =>
-                   match x with
-                   | Skipped => go tags r                        (* nothing included *)
-                   | Failed => fail
-                   | Got (RText v) => inner v
-                   | Got (RDtd _) => fail
-                   end)
-               end
-           end
-         end
-       end) tags l
+  | S f => run_toks (tok_step (content f d) (S f) d open lvl) tags l
   end.
 
 (* the body is one element: first token opens it, its end tag is the last token *)
